@@ -87,3 +87,28 @@ Definition conditional (k : kind) (c : list test) (e : env) : env * env * env :=
   let '(e1, s1, zs) := get_backup k c e empty_state in
   let e2 := narrowing e1 s1 in
   (e1, e2, run_restores zs e2).
+
+(* ---------------------------------------------------------------- elsif chains
+   if C0; B0; elsif C1; B1; ...; [else; Be;] end.  At `elsif`: narrowing, ifNarrowTs reset, getBackupContext on the
+   running state; the restore closures it returns are deferred as well (keep = true; the pinned code dropped them:
+   keep = false).  At `else`: ifNarrowTs reset, narrowing.  Deferred closures run last to first. *)
+Definition nrun := (env * nstate * list (string * vty))%type.
+Definition reset_ifn (s : nstate) : nstate := {| orig := orig s; narrow := narrow s; ifn := []; conj := conj s; excl := excl s |}.
+
+Definition elsif_step (keep : bool) (c : list test) (st : nrun) : nrun :=
+  let '(e, s, zs) := st in
+  let '(e2, s2, zs2) := get_backup KIf c (narrowing e s) (reset_ifn s) in
+  (e2, s2, if keep then zs ++ zs2 else zs).
+
+Fixpoint chain_from (keep : bool) (cs : list (list test)) (st : nrun) (acc : list env) : list env * nrun :=
+  match cs with
+  | [] => (acc, st)
+  | c :: r => let st' := elsif_step keep c st in chain_from keep r st' (acc ++ [fst (fst st')])
+  end.
+
+(* the environments of the branches (then, elsif 1, ..., elsif n), of the else branch, and after `end` *)
+Definition chain (keep : bool) (c0 : list test) (cs : list (list test)) (has_else : bool) (e : env) : list env * option env * env :=
+  let st0 := get_backup KIf c0 e empty_state in
+  let '(branches, (e1, s1, zs)) := chain_from keep cs st0 [fst (fst st0)] in
+  let e_else := narrowing e1 (reset_ifn s1) in
+  (branches, if has_else then Some e_else else None, run_restores zs (if has_else then e_else else e1)).
